@@ -293,6 +293,10 @@ impl Model {
     }
 
     fn act_heart_beat(&mut self, env: &mut ModelEnv) {
+        // read the reader's state once: a later read could see the reader finish in between, and the
+        // clear decision below and the `processed` decision must agree on it
+        let reader_stopped = self.reader_control.as_ref().map(ReaderControl::is_done).unwrap_or(true);
+
         // save the processed items
         let matcher_stopped = self
             .matcher_control
@@ -305,7 +309,6 @@ impl Model {
         #[cfg(feature = "verif")]
         crate::verif::sched::point(if matcher_stopped { "hb.ms_true" } else { "hb.ms_false" });
         if matcher_stopped {
-            let reader_stopped = self.reader_control.as_ref().map(ReaderControl::is_done).unwrap_or(true);
             #[cfg(feature = "verif")]
             crate::verif::sched::log(format!("hb.rs1 {}", reader_stopped));
             #[cfg(feature = "verif")]
@@ -335,7 +338,6 @@ impl Model {
         }
 
         let items_consumed = self.item_pool.num_not_taken() == 0;
-        let reader_stopped = self.reader_control.as_ref().map(|c| c.is_done()).unwrap_or(true);
         let processed = reader_stopped && items_consumed;
         #[cfg(feature = "verif")]
         crate::verif::sched::log(format!("hb.ic {} hb.rs2 {}", items_consumed, reader_stopped));
